@@ -22,11 +22,12 @@ SKIP_FILES = re.compile(r"(verif_clock|verif_std|exporter|logging|/macros/|datas
 FILE_PROPS = [
     (r"core/stat/", ["C01", "C02", "C04", "C09", "C17"]),
     (r"core/base/stat", ["C01", "C02", "C04"]),
-    (r"core/base/(slot_chain|entry|context|result|block_error|rule)", ["C13", "C04", "C01", "C05"]),
+    (r"core/base/(slot_chain|entry|context|result|block_error|rule)", ["C13", "C04", "C03", "C01", "C05"]),
     (r"core/base/metric_item", ["C18", "C19"]),
     (r"core/base/", ["C13", "C04"]),
     (r"core/flow/traffic_shaping/(throttling)", ["C07", "C11", "C04"]),
     (r"core/flow/traffic_shaping/(warm_up|warmup)", ["C08", "C11"]),
+    (r"core/flow/traffic_shaping/adaptive", ["C12"]),
     (r"core/flow/traffic_shaping/", ["C01", "C07", "C08", "C11"]),
     (r"core/flow/rule_manager", ["C10", "C11", "C12", "C01"]),
     (r"core/flow/rule", ["C10", "C12", "C18", "C01"]),
@@ -46,7 +47,7 @@ FILE_PROPS = [
     (r"core/config/", ["C17"]),
     (r"core/log/metric/", ["C19"]),
     (r"datasource/", ["C18"]),
-    (r"api/", ["C04", "C13", "C12", "C05"]),
+    (r"api/", ["C04", "C13", "C03", "C12", "C05"]),
     (r"utils/time", ["C02", "C07", "C19"]),
     (r"middleware/tower", ["C20"]),
 ]
